@@ -79,6 +79,10 @@ def snapshot(h, *, with_stats: bool = True) -> Dict[str, Any]:
         s["underflow"] = _scalar(h.underflow)
         s["overflow"] = _scalar(h.overflow)
         s["inner_missed"] = _scalar(h.inner_missed)
+        try:
+            s["missed_total"] = _scalar(h.missed)  # reported whether or not the tracking flag is on
+        except Exception:
+            pass
     else:
         s["missed"] = _scalar(h.missed)
     try:
